@@ -388,6 +388,15 @@ impl Context {
   }
 }
 
+#[cfg(rzmq_verif)]
+impl Context {
+  /// Number of actors registered with this context's wait group that have not stopped yet
+  /// (read-only, verification builds).
+  pub fn verif_live_actor_count(&self) -> usize {
+    self.inner.actor_wait_group.get_count()
+  }
+}
+
 impl fmt::Debug for Context {
   fn fmt(&self, f: &mut fmt::Formatter<'_>) -> fmt::Result {
     // Provide a more informative Debug representation if useful,
